@@ -556,8 +556,11 @@ Proof.
   cbv zeta. unfold multi_search. fold rq1. fold crq. rewrite Ers.
   cbn [r_hits r_total]. split; [|exact Htotal].
   unfold spec_hits. fold rq1. fold desc1. fold after1.
-  subst rq1. rewrite rev_from, rev_size, (rev_after_from g rq) by (repeat split; assumption).
-  fold desc1.
+  assert (Ea : match after1 with Some _ => 0 | None => q_from rq1 end = q_from rq)
+    by (apply (rev_after_from g rq); repeat split; assumption).
+  assert (Ef : q_from rq1 = q_from rq) by apply rev_from.
+  assert (Ez : q_size rq1 = q_size rq) by apply rev_size.
+  rewrite Ea, Ef, Ez.
   destruct (q_before rq) eqn:Eb.
   - (* SearchBefore: both sides re-sort lists that observe the same *)
     rewrite !sort_hobs.
@@ -576,7 +579,9 @@ Qed.
 Lemma tree_ok_all g t : tree_ok g t.
 Proof.
   induction t as [lf|cs IH] using tree_ind'; intros rq Hwf Hok Htot.
-  - eexists. split; [reflexivity|]. split; reflexivity.
+  - eexists. split; [reflexivity|].
+    unfold spec_page, spec_total, all_matches. cbn [leaves flat_map]. rewrite app_nil_r.
+    split; reflexivity.
   - destruct cs as [|c [|c' cs']]; [discriminate| |].
     + (* the single-member short circuit *)
       inversion IH as [|? ? Hc _]; subst. cbn in Hwf. rewrite andb_true_r in Hwf.
